@@ -178,13 +178,35 @@ def run(db, tier):
         f = db.fn(name)
         rep.fn(f)
         cast_sites += 1
-        has = any(s["r"] == "cast" and s["ck"] == ck for b in f.blocks for s in b["s"])
-        rep.check(has, "R-CAST", name, f.loc, "sigil read is an `as` cast (%s)" % ck, "%s no longer casts with `as`" % name)
+        casts = [(s["ck"], db.types[s["from"]], db.types[s["to"]]) for b in f.blocks for s in b["s"]
+                 if s["r"] == "cast" and s["ck"] in ("FloatToInt", "IntToFloat", "IntToInt", "FloatToFloat")]
+        want = ("FloatToInt", "f32", "i32") if ck == "FloatToInt" else ("IntToFloat", "i32", "f32")
+        rep.check(casts == [want], "R-CAST", name, f.loc, "sigil read is the single `as` cast %s -> %s (Rust semantics: truncating, saturating, NaN -> 0)" % want[1:],
+                  "%s converts through %s instead of a single %s -> %s cast: out-of-range values no longer agree with int()/float() and the machine cast" % (name, casts, want[1], want[2]))
     f = db.fn("value::ScalarValue::cast_by_ty_sigil")
     rep.fn(f)
     cs = arms.calls_in(f.hir)
     rep.check("value::ScalarValue::read_as_int" in cs and "value::ScalarValue::read_as_float" in cs, "R-CAST", "cast_by_ty_sigil|uses-read_as", f.loc,
               "cast_by_ty_sigil uses read_as_int/read_as_float", "cast_by_ty_sigil does not use read_as_int/read_as_float")
+
+    # ---- R-CMP: comparisons are the Rust operators on the operands themselves (IEEE for floats: NaN compares false, != true)
+    rep.rule("R-CMP", "each comparison operator is evaluated as `(a OP b) as i32` with the same operator, on ints and on floats")
+    CMPOPS = {"Eq": "==", "Ne": "!=", "Lt": "<", "Le": "<=", "Gt": ">", "Ge": ">="}
+    for op, sym in sorted(CMPOPS.items()):
+        for ty in ("Int", "Float"):
+            arm = T.bin_eval_arm.get(("ast::BinOpKind::" + op, ty))
+            key = "binop|%s|%s" % (op, ty)
+            if arm is None:
+                rep.bad("R-CMP", key, fb.loc, "no %s arm for %s" % (ty, op))
+                continue
+            bins = [n for n in hir_walk(arm["b"]) if n.get("k") == "Binary" and n.get("op") in CMPOPS.values()]
+            okc = (len(bins) == 1 and bins[0]["op"] == sym and bins[0]["l"].get("k") == "Path" and bins[0]["r"].get("k") == "Path"
+                   and bins[0]["l"].get("p") != bins[0]["r"].get("p") and not [c for c in arms.calls_in(arm["b"]) if not c.startswith("value::ScalarValue::")])
+            shared = sum(1 for k2, a2 in T.bin_eval_arm.items() if a2 is arm)
+            rep.check(okc and shared == 1, "R-CMP", key, "%s:%d" % (fb.file, arm["ln"]), "(a %s b) as i32" % sym,
+                      "the %s arm of `%s` is not `(a %s b) as i32` on its own operands (operators found: %s, calls: %s, arm shared by %d operators): "
+                      "e.g. comparisons with NaN or the wrong operator fold to a different value than the machine computes"
+                      % (ty, sym, sym, [b_["op"] for b_ in bins], [c.rsplit("::", 1)[-1] for c in arms.calls_in(arm["b"])][:3], shared))
 
     # ---- R-LOGIC
     for op, sel in (("LogicOr", "||"), ("LogicAnd", "&&")):
